@@ -566,7 +566,8 @@ def rename(table: Table, name_map: dict[str | Col | ColName, str]) -> Pipeable:
     if d := set(name_map).difference(table._cache.name_to_uuid):
         raise ValueError(f"no column with name `{next(iter(d))}` in table `{table._ast.short_name()}`")
 
-    if d := (set(table._cache.name_to_uuid).difference(name_map)) & set(name_map.values()):
+    new_names = [name_map.get(name, name) for name in table._cache.name_to_uuid]
+    if d := {name for name in new_names if new_names.count(name) > 1}:
         raise ValueError(f"rename would cause duplicate column name `{next(iter(d))}`")
 
     new = copy.copy(table)
